@@ -13,7 +13,7 @@ import (
 
 // C06 — cursor and selection stay inside the buffer; movements never edit.
 
-const c06Rule = "editor states reached by generated scripts (C01 alphabet: typing incl. multi-byte, history recall of multi-line / multi-byte entries, kills, mode switches, vi operators, visual mode, searches, menus) then ONE named movement/copy command (copies in vi command mode also into a named register and then once more appending to it; one case in five starts from a buffer that is a proper prefix of a history entry) (every command the library documents as movement or copy: forward/backward-char/word, shell words, beginning/end-of-line, screen lines, all vi-* motions, vi-match, vi-goto-column, vi-first-print, marks, character searches with an argument key, copy-region-as-kill, copy-backward/forward-word, vi-yank-to + motion, vi-yank-whole-line, select-* text objects) with a numeric argument from {none, 2, 3, 12, 0, -, -2, 999}, then accept; oracle: (a) at EVERY main-loop input wait 0 <= pos <= len, in a vi command keymap (isearch aside) the cursor is on a character unless the buffer or its line is empty, an active selection is (-1,-1) or 0 <= b <= e <= len; (b) a line returned without error by accept-line delivered as its own read equals the buffer at the preceding wait; (c) the named command leaves the buffer text unchanged; non-trivial = command ran on a multi-line or multi-byte buffer, or with a numeric argument, or in vi command/visual mode; distinct = hash of the case"
+const c06Rule = "editor states reached by generated scripts (C01 alphabet: typing incl. multi-byte, history recall of multi-line / multi-byte entries, kills, mode switches, vi operators, visual mode, searches, menus) then ONE named movement/copy command (copies in vi command mode also into a named register and then once more appending to it; one case in five starts from a buffer that is a proper prefix of a history entry; one in four ends the script with a region or selection made active (set-mark + motion, exchange-point-and-mark once or twice, visual mode, select-in-word) followed by 1-3 commands that shrink the buffer under it) (every command the library documents as movement or copy: forward/backward-char/word, shell words, beginning/end-of-line, screen lines, all vi-* motions, vi-match, vi-goto-column, vi-first-print, marks, character searches with an argument key, copy-region-as-kill, copy-backward/forward-word, vi-yank-to + motion, vi-yank-whole-line, select-* text objects) with a numeric argument from {none, 2, 3, 12, 0, -, -2, 999}, then accept; oracle: (a) at EVERY main-loop input wait 0 <= pos <= len, in a vi command keymap (isearch aside) the cursor is on a character unless the buffer or its line is empty, an active selection is (-1,-1) or 0 <= b <= e <= len; (b) a line returned without error by accept-line delivered as its own read equals the buffer at the preceding wait; (c) the named command leaves the buffer text unchanged; non-trivial = command ran on a multi-line or multi-byte buffer, or with a numeric argument, or in vi command/visual mode; distinct = hash of the case"
 
 var c06Commands = []string{
 	"forward-char", "backward-char", "forward-word", "backward-word", "shell-forward-word", "shell-backward-word", "beginning-of-line", "end-of-line",
@@ -119,11 +119,46 @@ func genC06(t *rapid.T, e *Env) *C06Case {
 		}
 	}
 
+	// a region or selection made active, then commands that SHRINK the buffer
+	// under it (clause (a) is looked at after every step)
+	if rapid.IntRange(0, 3).Draw(t, "regionshrink") == 0 {
+		if len(c.Steps) == 0 || rapid.Bool().Draw(t, "sometext") {
+			c.Steps = append(c.Steps, Step{Keys: enc([]byte(rapid.SampledFrom([]string{"echo hello world", "ab", "日本語 text", "a (b c) d e"}).Draw(t, "rtext"))), Note: "text"})
+		}
+
+		for i := rapid.IntRange(0, 4).Draw(t, "rleft"); i > 0; i-- {
+			c.Steps = append(c.Steps, Step{Cmd: "backward-char"})
+		}
+
+		switch rapid.IntRange(0, 4).Draw(t, "rkind") {
+		case 0:
+			c.Steps = append(c.Steps, Step{Cmd: "set-mark"}, Step{Cmd: rapid.SampledFrom([]string{"backward-word", "forward-word", "beginning-of-line", "end-of-line", "backward-char"}).Draw(t, "rmove")})
+		case 1:
+			c.Steps = append(c.Steps, Step{Cmd: "exchange-point-and-mark"})
+		case 2:
+			c.Steps = append(c.Steps, Step{Cmd: "exchange-point-and-mark"}, Step{Cmd: "exchange-point-and-mark"})
+		case 3:
+			c.Steps = append(c.Steps, Step{Cmd: "set-mark"}, Step{Cmd: "end-of-line"}, Step{Cmd: "exchange-point-and-mark"})
+		default:
+			if c.Mode == "vi" {
+				c.Steps = append(c.Steps, Step{Cmd: "vi-movement-mode"}, Step{Cmd: "vi-visual-mode"}, Step{Cmd: rapid.SampledFrom([]string{"vi-backward-word", "vi-end-of-line", "vi-forward-char"}).Draw(t, "vmove")})
+			} else {
+				c.Steps = append(c.Steps, Step{Cmd: "select-in-word"})
+			}
+		}
+
+		for i := rapid.IntRange(1, 3).Draw(t, "nshrink"); i > 0; i-- {
+			c.Steps = append(c.Steps, Step{Cmd: rapid.SampledFrom([]string{"delete-char", "backward-delete-char", "kill-word", "backward-kill-word", "kill-line", "unix-line-discard",
+				"undo", "previous-history", "next-history", "kill-whole-line", "vi-delete-to", "transpose-chars", "backward-kill-line"}).Draw(t, "shrink")})
+		}
+	}
+
+	c.Cmd = rapid.SampledFrom(c06Commands).Draw(t, "cmd")
+
 	// copies are few among the commands: give them a quarter of the cases
 	if rapid.IntRange(0, 3).Draw(t, "copycase") == 0 {
 		c.Cmd = rapid.SampledFrom([]string{"copy-region-as-kill", "copy-backward-word", "copy-forward-word", "vi-yank-whole-line", "vi-yank-to"}).Draw(t, "copycmd")
 	}
-	c.Cmd = rapid.SampledFrom(c06Commands).Draw(t, "cmd")
 	c.Count = rapid.SampledFrom([]string{"", "", "", "2", "3", "12", "0", "-", "-2", "999"}).Draw(t, "count")
 	c.Arg = rapid.SampledFrom([]string{"a", "o", " ", "x", "(", "\"", "e", "日"}).Draw(t, "arg")
 	c.Motion = rapid.SampledFrom([]string{"w", "b", "e", "$", "0", "l", "h", "iw", "aw"}).Draw(t, "motion")
